@@ -1,4 +1,4 @@
 #!/bin/bash
-# runs every property check (quick tier, no evidence) on /repo (or $1) and prints the summary lines
+# runs every property check (no evidence) on /repo (or $1) and prints the summary lines; TIER=thorough for the deep tier
 cd /verif
-for i in $(seq -w 1 20); do echo C$i; done | xargs -P 8 -I{} sh -c "./bin/gocqlverif check -property {} ${1:+-repo $1} -no-evidence 2>&1 | grep -E '^(C[0-9]+ tier|VIOLATION|UNRESOLVED|  [^ ]+: C)' | cut -c1-260" | sort
+for i in $(seq -w 1 20); do echo C$i; done | xargs -P 8 -I{} sh -c "./bin/gocqlverif check -property {} ${1:+-repo $1} ${TIER:+-tier $TIER} -no-evidence 2>&1 | grep -E '^(C[0-9]+ tier|VIOLATION|UNRESOLVED|  [^ ]+: C)' | cut -c1-260" | sort
